@@ -259,7 +259,10 @@ Callback(ev) ==
                ELSE todo' = Tail(todo) /\ fbleft' = fbleft
     \* while the callback runs the driver station may send a new word (ev.dsw): it is seen at the next poll
     /\ dsNew' = (IF "dsw" \in DOMAIN ev /\ ev.dsw # "" THEN ev.dsw ELSE dsNew)
-    /\ UNCHANGED <<sh, chooser, chooserNew, ds, fms, exit, selStr, mode, ntMode, alarm, autoT0, active, iterNo, mIter>>
+    \* ... and the callback itself (or another thread meanwhile) may call endCompetition() (ev.endc): the iteration is
+    \* finished, the loop is left at its next head
+    /\ exit' = (exit \/ ("endc" \in DOMAIN ev /\ ev.endc))
+    /\ UNCHANGED <<sh, chooser, chooserNew, ds, fms, selStr, mode, ntMode, alarm, autoT0, active, iterNo, mIter>>
 
 WaitEv ==       \* the thread blocks in NotifierDelay.wait()
     /\ pc = "body" /\ todo = <<>> /\ pc' = "wait"
